@@ -44,6 +44,13 @@ PROFILES = [
     ('xhtml-ns-events', 1, dict(ns='xhtml', root=True, ns_events=True, pool=4, max_nodes=12)),
     ('prolog', 2, dict(pool=3, prolog=0.8, root=True, max_nodes=8, comments=0.05, pis=0.06, cdata=0.06)),
     ('ws', 1, dict(root=True, pool=3, texts='ws', max_nodes=12)),
+    # builder-style streams (no START_NS events) that mix XHTML-namespaced and un-namespaced elements: the
+    # flattener makes up xmlns="…" / xmlns="" at every change of namespace; few tags and attributes, so that the
+    # identical start tag recurs on both sides of such a scope boundary (seeded C08-4: the flattener's name cache
+    # reused across the boundary); the expat re-parse is compared by qualified names
+    ('mixed-ns', 3, dict(ns='mixed', root=True, pool=2, max_nodes=16, attr_counts=[0, 0, 0, 1],
+                         tags=['div', 'p', 'b', 'span', 'a', 'br'])),
+    ('mixed-ns-vocab', 1, dict(ns='mixed', root=True, pool=3, max_nodes=14, cdata=0.05, comments=0.05)),
     # LF/TAB/CR in attribute values and CR in text: outside the xhtml round trip (XML normalisation, finding
     # C08-attr-ws / C08-text-cr); the Lean readers are still compared with html.parser / expat there
     ('xml-ws', 1, dict(root=True, pool=3, attr_ws=True, text_cr=True, max_nodes=10)),
@@ -593,6 +600,19 @@ def reader_canon(toks, method):
 def features(js):
     f = set()
     stack = []
+    nsstack, ctxs, uris = [], {}, set()
+    for e in js:
+        if e[0] == 'S':
+            # the same start tag below parents of different namespaces: its flattened form must differ
+            ctxs.setdefault(json.dumps(e, sort_keys=True), set()).add(nsstack[-1] if nsstack else None)
+            nsstack.append(e[1][0])
+            uris.add(e[1][0])
+        elif e[0] == 'E' and nsstack:
+            nsstack.pop()
+    if len(uris) > 1:
+        f.add('mixed-namespaces')
+    if any(len(c - {None}) > 1 for c in ctxs.values()):
+        f.add('same-start-tag-across-namespace-scopes')
     for e in js:
         if e[0] == 'S':
             stack.append(e[1][1])
